@@ -335,6 +335,16 @@ func c15MultiFile(c *Check, pool *NodePool) {
 		"b.mjs": "export const a = 'lib.a'; export let counter = 100; export function bump() { counter++ } const e = 'b.e', t = 'b.t', n = 'b.n', r = 'b.r'; log('B', a, e, t, n, r, counter, a, e, t, n, r);\n",
 		"c.mjs": "export const a = 'c.a', e = 'c.e', t = 'c.t'; const o = 'c.o', s = 'c.s', i = 'c.i'; log('C', a, e, t, o, s, i, a, e, t, o, s, i);\n",
 	}})
+	// names esbuild generates for its own top-level temporaries (`export_<alias>` copies of re-exported CommonJS
+	// bindings, `import_<file>`, `require_<file>`, `<file>_default`, `<file>_exports`) used by the program itself
+	cases = append(cases, mf{"user-symbols-named-like-generated-temporaries", map[string]string{
+		"a.mjs": "export {foo} from './b.cjs'; import * as b_exports from './c.mjs'; import cdef from './c.mjs';\n" +
+			"var export_foo = 'A.export_foo', import_b = 'A.import_b', require_b = 'A.require_b', c_default = 'A.c_default', c_exports = 'A.c_exports', init_c = 'A.init_c';\n" +
+			"log('A', export_foo, import_b, require_b, c_default, c_exports, init_c, b_exports.x, cdef);\n" +
+			"__pending.push(Promise.resolve().then(() => log('A later', export_foo, import_b, require_b, c_default, c_exports, init_c, b_exports.x, cdef)));\n",
+		"b.cjs": "exports.foo = 'B.foo'; log('B');\n",
+		"c.mjs": "export const x = 'C.x'; export default 'C.default'; log('C');\n",
+	}})
 	cfgs := []c02Cfg{{"esm", api.FormatESModule, api.PlatformNode, false}, {"esm-min", api.FormatESModule, api.PlatformNode, true}, {"cjs-min", api.FormatCommonJS, api.PlatformNode, true}, {"iife-min", api.FormatIIFE, api.PlatformNode, true}, {"iife", api.FormatIIFE, api.PlatformBrowser, false}}
 	for ci, cs := range cases {
 		dir := filepath.Join(root, fmt.Sprintf("m%d", ci))
